@@ -51,6 +51,7 @@ class Env(object):
         self.assigned = {}  # name -> [value exprs] (plain assignments)
         self.endians = set()
         self.scal = {}  # scalar locals -> [(cond or None, canonical text)] (conditional values after an if)
+        self.pairs = {}  # local bound to a (key, value) item of a grouped mapping -> (key text, value text)
 
     def canon(self, e):
         """canonical binding text of an expression"""
@@ -78,10 +79,55 @@ class _Subst(ast.NodeTransformer):
         return n
 
 
+def _const(env, e):
+    from .rules.util import const_value
+
+    return const_value(env.prog, env.func, e)
+
+
+def _expanded(env, e):
+    from .rules.util import expand
+
+    try:
+        return expand(env.prog, env.func, e, calls=True)
+    except Exception:  # noqa: BLE001
+        return e
+
+
+def _fmt_value(env, f):
+    """the struct format a format argument denotes: a literal, a module / class constant, or None"""
+    if isinstance(f, ast.Constant) and isinstance(f.value, str):
+        return f.value
+    v = _const(env, f)
+    return v if isinstance(v, str) else None
+
+
+def _pack_call(env, e):
+    """(format expr, [value args]) when `e` packs with the struct module: struct.pack(fmt, ...), a precompiled
+    `struct.Struct(fmt)` object's .pack(...), or a name bound once to such a bound method; else None."""
+    if not isinstance(e, ast.Call):
+        return None
+    fn = norm(e.func)
+    if fn in ("struct.pack", "pack") and e.args:
+        return e.args[0], list(e.args[1:])
+    target = e.func
+    if isinstance(target, ast.Attribute) and target.attr == "pack":
+        obj = _expanded(env, target.value)
+        if isinstance(obj, ast.Call) and norm(obj.func) in ("struct.Struct", "Struct") and obj.args:
+            return obj.args[0], list(e.args)
+    if isinstance(target, ast.Name):
+        obj = _expanded(env, target)
+        if isinstance(obj, ast.Attribute) and obj.attr == "pack" and isinstance(obj.value, ast.Call) and norm(obj.value.func) in (
+                "struct.Struct", "Struct") and obj.value.args:
+            return obj.value.args[0], list(e.args)
+    return None
+
+
 # ---------------------------------------------------------------- encoders
-def encoder_terms(prog, func, subst=None, depth=0):
+def encoder_terms(prog, func, subst=None, depth=0, pairs=None):
     """Return (terms, env) for an encoder function."""
     env = Env(prog, func, subst)
+    env.pairs = dict(pairs or {})
     acc = {}
     terms = _enc_block(env, func.body, acc)
     return normalise(terms), env
@@ -96,6 +142,19 @@ def _enc_block(env, stmts, acc):
             continue
         if isinstance(st, (ast.Assert, ast.Pass)):
             continue
+        if isinstance(st, ast.Assign) and len(st.targets) == 1 and isinstance(st.targets[0], (ast.Tuple, ast.List)) and isinstance(
+                st.value, ast.Name) and st.value.id in env.pairs and len(st.targets[0].elts) == 2 and all(isinstance(e, ast.Name) for e in st.targets[0].elts):
+            # (key, value) = item   where item came from `for item in <mapping>.items()`
+            env.subst[st.targets[0].elts[0].id], env.subst[st.targets[0].elts[1].id] = env.pairs[st.value.id]
+            continue
+        if isinstance(st, ast.Assign) and len(st.targets) == 1 and isinstance(st.targets[0], (ast.Tuple, ast.List)) and isinstance(
+                st.value, (ast.Tuple, ast.List)) and len(st.targets[0].elts) == len(st.value.elts) and all(isinstance(e, ast.Name) for e in st.targets[0].elts):
+            # a, b = (x, y): element-wise scalar temporaries (right-hand sides are evaluated before any target is bound)
+            vals = [env.canon(v) for v in st.value.elts]
+            for e, v, c in zip(st.targets[0].elts, st.value.elts, vals):
+                if _scalar_value(v):
+                    env.scal[e.id] = [(None, "(%s)" % c if isinstance(v, (ast.BinOp, ast.BoolOp, ast.Compare, ast.IfExp)) else c)]
+            continue
         if isinstance(st, ast.Assign) and len(st.targets) == 1:
             t = st.targets[0]
             if isinstance(t, ast.Name):
@@ -103,6 +162,9 @@ def _enc_block(env, stmts, acc):
                 v = _enc_expr(env, st.value, acc, allow_none=True)
                 if v is not None:
                     acc[t.id] = v
+                elif isinstance(st.value, (ast.ListComp, ast.GeneratorExp)) and _comp_loop(env, st.value, acc) is not None:
+                    acc[t.id] = _comp_loop(env, st.value, acc)
+                    env.lists[t.id] = True
                 elif isinstance(st.value, ast.List):
                     items = []
                     for e in st.value.elts:
@@ -114,6 +176,8 @@ def _enc_block(env, stmts, acc):
                 elif isinstance(st.value, ast.IfExp) and isinstance(st.value.body, ast.List) and not st.value.body.elts:
                     # payloads = [] if payloads is None else payloads
                     pass
+                elif _none_default(st.value) is not None:
+                    env.scal[t.id] = [(None, env.canon(_none_default(st.value)))]
                 elif _scalar_value(st.value):
                     # a scalar temporary: bindings show where the value comes from, not the name of the local
                     env.scal[t.id] = [(None, "(%s)" % env.canon(st.value) if isinstance(st.value, (ast.BinOp, ast.BoolOp, ast.Compare, ast.IfExp)) else env.canon(st.value))]
@@ -127,6 +191,18 @@ def _enc_block(env, stmts, acc):
                 st.value.func.attr == "append" and isinstance(st.value.func.value, ast.Name) and st.value.func.value.id in acc:
             v = _enc_expr(env, st.value.args[0], acc)
             acc[st.value.func.value.id].extend(v if v is not None else [("OPAQUE", norm(st.value.args[0]))])
+            continue
+        if isinstance(st, ast.Expr) and isinstance(st.value, ast.Call) and isinstance(st.value.func, ast.Attribute) and \
+                st.value.func.attr == "extend" and isinstance(st.value.func.value, ast.Name) and st.value.func.value.id in acc and st.value.args:
+            a0 = st.value.args[0]
+            v = None
+            if isinstance(a0, (ast.ListComp, ast.GeneratorExp)):
+                v = _comp_loop(env, a0, acc)
+            elif isinstance(a0, (ast.List, ast.Tuple)):
+                v = []
+                for x in a0.elts:
+                    v += _enc_expr(env, x, acc) or [("OPAQUE", norm(x))]
+            acc[st.value.func.value.id].extend(v if v is not None else [("OPAQUE", norm(st.value))])
             continue
         if isinstance(st, ast.For):
             sub = dict(env.subst)
@@ -212,6 +288,23 @@ def _enc_block(env, stmts, acc):
     return ret
 
 
+def _none_default(e):
+    """X for `X if X is not None else []` / `[] if X is None else X` / `X or []` (a missing list defaults to empty)"""
+    if isinstance(e, ast.IfExp) and isinstance(e.test, ast.Compare) and len(e.test.ops) == 1 and isinstance(e.test.comparators[0], ast.Constant) and \
+            e.test.comparators[0].value is None and isinstance(e.test.left, ast.Name):
+        x = e.test.left.id
+        if isinstance(e.test.ops[0], (ast.IsNot, ast.NotEq)):
+            keep, dflt = e.body, e.orelse
+        else:
+            keep, dflt = e.orelse, e.body
+        if isinstance(keep, ast.Name) and keep.id == x and isinstance(dflt, (ast.List, ast.Tuple)) and not dflt.elts:
+            return keep
+    if isinstance(e, ast.BoolOp) and isinstance(e.op, ast.Or) and len(e.values) == 2 and isinstance(e.values[0], ast.Name) and isinstance(
+            e.values[1], (ast.List, ast.Tuple)) and not e.values[1].elts:
+        return e.values[0]
+    return None
+
+
 def _scalar_value(e):
     if isinstance(e, (ast.List, ast.Dict, ast.Set, ast.ListComp, ast.DictComp, ast.GeneratorExp, ast.Lambda)):
         return False
@@ -222,6 +315,21 @@ def _scalar_value(e):
 
 def _leaves(stmts):
     return bool(stmts) and isinstance(stmts[-1], (ast.Return, ast.Raise, ast.Continue, ast.Break))
+
+
+def _comp_loop(env, comp, acc):
+    """terms of `b"".join(E for v in S)` / `[E for v in S]`: a LOOP over S of the terms of E"""
+    if len(comp.generators) != 1 or comp.generators[0].ifs:
+        return None
+    g = comp.generators[0]
+    outer = dict(env.subst)
+    text = env.canon(g.iter)
+    _bind_loop(env, ast.For(target=g.target, iter=g.iter, body=[], orelse=[]))
+    inner = _enc_expr(env, comp.elt, acc)
+    env.subst = outer
+    if inner is None:
+        return None
+    return [("LOOP", text, inner)]
 
 
 def _bind_loop(env, st):
@@ -238,6 +346,15 @@ def _bind_loop(env, st):
     elif it.endswith(".items()") and isinstance(tgt, ast.Tuple):
         env.subst[tgt.elts[0].id] = "<key %s>" % it[:-8]
         env.subst[tgt.elts[1].id] = "<value %s>" % it[:-8]
+    elif isinstance(tgt, ast.Name) and it.endswith(".items()"):
+        # the item is kept whole and taken apart later (`for item in m.items(): k, v = item`)
+        if it.startswith("<grouped "):
+            env.pairs[tgt.id] = ("<topic>", "<bytopic %s" % it[9:-9] + ">")
+        elif it.startswith("<bytopic "):
+            env.pairs[tgt.id] = ("<partition>", "<payload>")
+        else:
+            env.pairs[tgt.id] = ("<key %s>" % it[:-8], "<value %s>" % it[:-8])
+        env.subst[tgt.id] = "<each %s>" % it
     elif isinstance(tgt, ast.Name):
         env.subst[tgt.id] = "<each %s>" % it
 
@@ -253,7 +370,7 @@ def _enc_expr(env, e, acc, allow_none=False):
     if isinstance(e, ast.Call):
         fn = norm(e.func)
         last = fn.split(".")[-1]
-        if fn in ("struct.pack", "pack"):
+        if _pack_call(env, e) is not None:
             return _pack_terms(env, e)
         if last in WRITERS:
             if WRITERS[last] == "STR":
@@ -263,6 +380,15 @@ def _enc_expr(env, e, acc, allow_none=False):
             a = e.args[0]
             if isinstance(a, ast.Name) and a.id in acc:
                 return list(acc[a.id])
+            if isinstance(a, (ast.ListComp, ast.GeneratorExp)):
+                lp = _comp_loop(env, a, acc)
+                if lp is not None:
+                    return lp
+            if isinstance(a, (ast.List, ast.Tuple)):
+                items = []
+                for x in a.elts:
+                    items += _enc_expr(env, x, acc) or [("OPAQUE", norm(x))]
+                return items
             return [("OPAQUE", norm(e))]
         callee = env.prog.resolve_call(env.func, e)
         if callee is not None and callee.module.name == "kafkacodec" and ("encode" in callee.name):
@@ -280,7 +406,8 @@ def _enc_expr(env, e, acc, allow_none=False):
             names = [a.arg for a in callee.node.args.args]
             for nme, d in zip(names[len(names) - len(dflt):], dflt):
                 sub.setdefault(nme, norm(d))
-            t, env2 = encoder_terms(env.prog, callee, sub)
+            cpairs = {p: env.pairs[a.id] for p, a in zip(ps, e.args) if isinstance(a, ast.Name) and a.id in env.pairs}
+            t, env2 = encoder_terms(env.prog, callee, sub, pairs=cpairs)
             env.endians |= env2.endians
             return t
         return None
@@ -290,6 +417,11 @@ def _enc_expr(env, e, acc, allow_none=False):
         s = env.subst.get(e.id)
         if s is not None and allow_none:
             return None
+        # a module-level constant holding pre-encoded bytes (`_NO_REPLICA = struct.pack(">i", -1)`)
+        from .rules.util import module_const
+        mc = module_const(env.func, e.id)
+        if mc is not None and (_pack_call(env, mc) is not None or (isinstance(mc, ast.Constant) and isinstance(mc.value, bytes))):
+            return _enc_expr(env, mc, acc)
         return None
     if isinstance(e, ast.Constant) and isinstance(e.value, bytes):
         return [] if not e.value else [("RAW", repr(e.value))]
@@ -297,10 +429,13 @@ def _enc_expr(env, e, acc, allow_none=False):
 
 
 def _pack_terms(env, call):
-    f = call.args[0]
-    args = list(call.args[1:])
-    if isinstance(f, ast.Constant) and isinstance(f.value, str):
-        endian, codes = parse_fmt(f.value)
+    pc = _pack_call(env, call)
+    f, args = pc if pc is not None else (call.args[0], list(call.args[1:]))
+    fv = _fmt_value(env, f)
+    if isinstance(f, ast.Name) and fv is None:
+        f = _expanded(env, f)  # `fmt = ">i%di" % n` named by a local
+    if fv is not None:
+        endian, codes = parse_fmt(fv)
         env.endians.add(endian)
         if codes is None or len(codes) != len(args) or any(isinstance(a, ast.Starred) for a in args):
             return [("OPAQUE", norm(call))]
@@ -410,6 +545,7 @@ class DecEnv(object):
         self.endians = set()
         self.tuple_bound = []  # (name, n_fields, call) for  (name, cur) = relative_unpack(const fmt with n fields)
         self.rebases = []
+        self.copies = {}  # local -> canonical text of what it was copied from (`n = header[1]`, `left = count`)
 
 
 def decoder_terms(prog, func):
@@ -444,6 +580,34 @@ def _dec_block(env, stmts):
                 else:
                     out.append((READERS[fn], norm(vt)))
                 continue
+        # `a, b, c = fields` : the whole-tuple name is destructured after all - rename its leaves
+        if isinstance(st, ast.Assign) and len(st.targets) == 1 and isinstance(st.targets[0], (ast.Tuple, ast.List)) and isinstance(st.value, ast.Name):
+            tb = [x for x in env.tuple_bound if x[0] == st.value.id]
+            if tb and len(st.targets[0].elts) == tb[0][1] and all(isinstance(e, ast.Name) for e in st.targets[0].elts):
+                ren = {"%s[%d]" % (st.value.id, i): e.id for i, e in enumerate(st.targets[0].elts)}
+                out[:] = [_rename_leaf(t, ren) for t in out]
+                env.tuple_bound.remove(tb[0])
+                env.destructured = getattr(env, "destructured", set()) | {st.value.id}
+                continue
+        # plain copies of a leaf or a count (`n = header[1]`, `remaining = count`)
+        if isinstance(st, ast.Assign) and len(st.targets) == 1 and isinstance(st.targets[0], ast.Name) and isinstance(st.value, (ast.Name, ast.Subscript)):
+            src = norm(st.value)
+            env.copies[st.targets[0].id] = env.copies.get(src, src)
+        if isinstance(st, ast.Assign) and isinstance(st.value, ast.YieldFrom) and isinstance(st.value.value, ast.Call):
+            sub = _dec_helper(env, st.value.value)
+            if sub is not None:
+                out.extend(sub)
+                continue
+        if isinstance(st, ast.Expr) and isinstance(st.value, ast.YieldFrom) and isinstance(st.value.value, ast.Call):
+            sub = _dec_helper(env, st.value.value)
+            if sub is not None:
+                out.extend(sub)
+                continue
+        if isinstance(st, ast.While):
+            cnt = _counting_while(env, st)
+            if cnt is not None:
+                out.append(("LOOP", cnt, _dec_block(env, st.body)))
+                continue
         if isinstance(st, ast.Assign):
             _note_flow(env, st)
             t0 = st.targets[0]
@@ -465,7 +629,8 @@ def _dec_block(env, stmts):
             body = _dec_block(env, st.body)
             it = st.iter
             if isinstance(it, ast.Call) and norm(it.func) == "range" and len(it.args) == 1:
-                out.append(("LOOP", norm(it.args[0]), body))
+                cnt = norm(it.args[0])
+                out.append(("LOOP", env.copies.get(cnt, cnt), body))
             elif isinstance(it, ast.Call) and norm(it.func).endswith("iter_unpack"):
                 f = it.args[0]
                 endian, codes = parse_fmt(f.value) if isinstance(f, ast.Constant) else ("", None)
@@ -480,14 +645,21 @@ def _dec_block(env, stmts):
         if isinstance(st, ast.If):
             alts = []
             chain = st
+            raising = []
             while True:
                 alts.append((norm(chain.test), _dec_block(env, chain.body)))
+                raising.append(bool(chain.body) and isinstance(chain.body[-1], ast.Raise))
                 if len(chain.orelse) == 1 and isinstance(chain.orelse[0], ast.If):
                     chain = chain.orelse[0]
                     continue
                 alts.append(("else", _dec_block(env, chain.orelse)))
+                raising.append(bool(chain.orelse) and isinstance(chain.orelse[-1], ast.Raise))
                 break
-            if any(b for c, b in alts):
+            live = [(c, b) for (c, b), rz in zip(alts, raising) if not rz]
+            if len(live) == 1 and len(alts) > 1 and all(not b for (c, b), rz in zip(alts, raising) if rz):
+                # every other arm only raises (a guard): the surviving arm is the layout, unconditionally
+                out.extend(live[0][1])
+            elif any(b for c, b in alts):
                 out.append(("ALT", alts))
             continue
         if isinstance(st, ast.Raise):
@@ -495,11 +667,66 @@ def _dec_block(env, stmts):
     return out
 
 
+def _rename_leaf(t, ren):
+    if t[0] == "P" and t[2] in ren:
+        return ("P", t[1], ren[t[2]])
+    if t[0] in ("LOOP", "GREEDY"):
+        return (t[0], ren.get(t[1], t[1]), [_rename_leaf(x, ren) for x in t[2]])
+    if t[0] == "ALT":
+        return ("ALT", [(c, [_rename_leaf(x, ren) for x in b]) for c, b in t[1]])
+    return t
+
+
+def _counting_while(env, st):
+    """count text of `while n > 0: ...; n -= 1` / `while i < n: ...; i += 1` (i starting at 0), else None"""
+    t = st.test
+    if not (isinstance(t, ast.Compare) and len(t.ops) == 1 and not st.orelse):
+        return None
+    left, right, op = t.left, t.comparators[0], t.ops[0]
+    steps = [x for x in st.body if isinstance(x, ast.AugAssign) and isinstance(x.target, ast.Name) and isinstance(x.value, ast.Constant) and x.value.value == 1]
+    if len(steps) != 1 or any(isinstance(x, (ast.Break, ast.Continue)) for b in st.body for x in ast.walk(b)):
+        return None
+    var = steps[0].target.id
+    down = isinstance(steps[0].op, ast.Sub)
+    if down and isinstance(left, ast.Name) and left.id == var and isinstance(op, ast.Gt) and isinstance(right, ast.Constant) and right.value == 0:
+        return env.copies.get(var, var)
+    if down and isinstance(left, ast.Name) and left.id == var and isinstance(op, ast.GtE) and isinstance(right, ast.Constant) and right.value == 1:
+        return env.copies.get(var, var)
+    if down and isinstance(left, ast.Name) and left.id == var and isinstance(op, ast.NotEq) and isinstance(right, ast.Constant) and right.value == 0:
+        return env.copies.get(var, var)
+    if not down and isinstance(left, ast.Name) and left.id == var and isinstance(op, ast.Lt) and isinstance(right, (ast.Name, ast.Subscript)):
+        # i < n with i initialised to 0 (checked loosely: the copy table knows `i = 0` is not a leaf)
+        cnt = norm(right)
+        return env.copies.get(cnt, cnt)
+    return None
+
+
+def _dec_helper(env, call):
+    """terms read by a local helper generator (`cur = yield from read_partitions(n, cur)`): the callee's own terms with
+    its parameters replaced by the canonical texts of the arguments"""
+    callee = env.prog.resolve_callable(env.func, call.func)
+    if callee is None or callee.module.name != env.func.module.name or callee is env.func:
+        return None
+    sub = DecEnv(env.prog, callee)
+    ps = [p for p in callee.params if p not in ("self", "cls")]
+    for p_, a in zip(ps, call.args):
+        if isinstance(a, (ast.Name, ast.Subscript)):
+            t = norm(a)
+            sub.copies[p_] = env.copies.get(t, t)
+    terms = _dec_block(sub, callee.body)
+    env.flows.update({k: env.flows.get(k, set()) | v for k, v in sub.flows.items()})
+    env.ctor_args.extend(sub.ctor_args)
+    env.endians |= sub.endians
+    env.tuple_bound.extend(sub.tuple_bound)
+    return terms
+
+
 def _unpack_terms(env, st, vt):
     call = st.value
     f = call.args[0]
-    if isinstance(f, ast.Constant) and isinstance(f.value, str):
-        endian, codes = parse_fmt(f.value)
+    fv = _fmt_value(env, f)
+    if fv is not None:
+        endian, codes = parse_fmt(fv)
         env.endians.add(endian)
         if codes is None:
             return [("OPAQUE", norm(call))]
@@ -510,11 +737,14 @@ def _unpack_terms(env, st, vt):
         # a bare name bound to the whole tuple
         env.tuple_bound.append((norm(vt), len(codes), st))
         return [("P", CODES[c], "%s[%d]" % (norm(vt), i)) for i, c in enumerate(codes)]
+    if isinstance(f, ast.Name):
+        f = _expanded(env, f)
     if isinstance(f, ast.BinOp) and isinstance(f.op, ast.Mod) and isinstance(f.left, ast.Constant):
         m = re.match(r"^([<>!=@]?)%[sd]([a-zA-Z])$", f.left.value)
         if m:
             env.endians.add(m.group(1))
-            return [("REP", norm(f.right), CODES[m.group(2)], norm(vt))]
+            cnt = norm(f.right)
+            return [("REP", env.copies.get(cnt, cnt), CODES[m.group(2)], norm(vt))]
     return [("OPAQUE", norm(call))]
 
 
@@ -529,6 +759,11 @@ def _note_flow(env, st):
                 env.ctor_args.append((fn.split(".")[-1], list(n.args), n))
     if isinstance(st, ast.Assign):
         t = st.targets[0]
+        if isinstance(t, (ast.Tuple, ast.List)) and isinstance(st.value, ast.Name):
+            # `a, b, c = collected`: what flowed into the collection flows on into each name
+            for e in t.elts:
+                if isinstance(e, ast.Name):
+                    env.flows.setdefault(st.value.id, set()).add(e.id)
         if isinstance(t, ast.Subscript):
             for v in _names(st.value):
                 env.flows.setdefault(v, set()).add(norm(t.value))
